@@ -100,15 +100,32 @@ def model_blk(c, aligned=False):
     if aligned:
         return 32768
     b = c["blk"] if c["blk"] > 0 else max(c["size"], 1)
+    if c["size"] > 131072:
+        b = 32768     # how a large stream is chunked is not observable; fine chunks only make the evaluation quadratic
     return max(1, min(b, 32768))
 
 
 def coq_case(c, lates, aligned=False):
     so, se = sizes(c)
     na = n_attempts(c)
-    return "(%s, %s, %s, %s, %d%%nat, %s, %s)" % (
+    return "(%s, %s, %s, %s, N.to_nat %d%%N, %s, %s)" % (
         cbool(c["stdout"]), cbool(c["stderr"]), cbool(c["output"]), cbool(c["script"]), model_blk(c, aligned),
-        clist(["(%d, %d)%%N" % (so, se)] * na), clist(["%d%%nat" % d for d in lates]))
+        clist(["(%d, %d)%%N" % (so, se)] * na), clist(["N.to_nat %d%%N" % d for d in lates]))
+
+
+def parse_rows(out):
+    """rows printed by Coq as tuples of primitive integers (hexadecimal)"""
+    import re
+    flat = re.sub(r"\s+", " ", out)
+    m = re.search(r"\bM\s*=\s*\[(.*?)\]\s*:", flat)
+    if not m:
+        return None
+    rows = []
+    for tup in re.findall(r"\(([^()]*)\)", m.group(1)):
+        nums = [int(x, 16) for x in re.findall(r"0x([0-9a-fA-F]+)%uint63", tup)]
+        if len(nums) == 4:
+            rows.append(tuple(nums))
+    return rows
 
 
 def decode_rows(rows, n):
@@ -147,7 +164,7 @@ def eval_model(ctx, variants):
                                     % ";\n".join(terms), timeout=900)
         if rc != 0:
             return None, out[-1500:]
-        return vlib.coq_list_result(out, "M"), None
+        return parse_rows(out), None
     res = [None] * len(variants)
     for sh, (rows, err) in zip(shards, pl.run_parallel(ev, list(enumerate(shards)), workers=12)):
         if rows is None:
